@@ -21,7 +21,9 @@ Reads the *source text* with `ast` (never imports or runs Lcapy) and extracts
   shapes the hand model coq/theory/ILT.v was written for.
 
 Anything outside the recognised subset raises Untranslatable with file:line; the
-check treats that as a broken obligation.
+check treats that as a broken obligation.  Skeleton statements are compared by the
+ast.dump of their parse (layout and redundant parentheses are ignored, the grouping
+of operators is not).
 
 Value kinds of the little symbolic evaluator:
   ('K', coq)   scalar (free of t)        ('N', coq)  natural number
@@ -61,8 +63,32 @@ def un(node):
 
 
 def nz(text):
-    """text with parentheses and blanks removed (tuple parentheses differ between Python versions)"""
-    return text.replace('(', '').replace(')', '').replace(' ', '')
+    """canonical form of a statement/expression text: the dump of its AST (so that only
+    layout and redundant parentheses are ignored, never the grouping of operators)"""
+    import textwrap
+    try:
+        tree = ast.parse(textwrap.dedent(text))
+    except SyntaxError:
+        # fragments such as `break`, `continue`, `return x` or an `if ...:` header
+        try:
+            tree = ast.parse('def _f():\n    for _i in _x:\n' + textwrap.indent(textwrap.dedent(text), '        '))
+        except SyntaxError:
+            try:
+                tree = ast.parse('def _f():\n    for _i in _x:\n' + textwrap.indent(textwrap.dedent(text), '        ') + '\n            pass')
+            except SyntaxError:
+                return 'TEXT:' + ' '.join(text.split())
+    return ast.dump(tree)
+
+
+def all_stmts(fn):
+    """canonical forms of every statement nested in fn, plus the headers of its if-statements"""
+    out = set()
+    for n in ast.walk(fn):
+        if isinstance(n, ast.stmt):
+            out.add(nz(ast.unparse(n)))
+            if isinstance(n, ast.If):
+                out.add(nz('if %s:' % ast.unparse(n.test)))
+    return out
 
 
 class Ev:
@@ -370,7 +396,7 @@ class ILTTranslation:
         expect(not ifq.orelse and len(ifq.body) == 3, ifq, 'shape of `if Q:`')
         expect(un(ifq.body[0]) == 'Qpoly = sym.Poly(Q, s)' and un(ifq.body[1]) == 'C = Qpoly.all_coeffs()', ifq, 'Qpoly / C')
         fr = ifq.body[2]
-        expect(isinstance(fr, ast.For) and nz(un(fr.target)) == 'n,c' and un(fr.iter) == 'enumerate(C)' and len(fr.body) == 1 and not fr.orelse, fr, 'enumerate(C) loop')
+        expect(isinstance(fr, ast.For) and un(fr.target) in ('n, c', '(n, c)') and un(fr.iter) == 'enumerate(C)' and len(fr.body) == 1 and not fr.orelse, fr, 'enumerate(C) loop')
         st = fr.body[0]
         expect(isinstance(st, ast.AugAssign) and isinstance(st.op, ast.Add) and un(st.target) == 'cresult', st, 'cresult += ...')
         ev = Ev(F)
@@ -523,6 +549,7 @@ class ILTTranslation:
         fn = find_method(self.ilt, 'do_damped_sin', F)
         self.ds = {}
         self.ds_guard_omega1 = False
+        self.ds_guard_degree = False
         self.ds_line = fn.lineno
         for k in (1, 2, 3):
             ev = Ev(F)
@@ -568,10 +595,14 @@ class ILTTranslation:
             t = un(s.test)
             if t == 'len(ncoeffs) > 3 or len(dcoeffs) > 3':
                 return None
-            if t == 'zeta.is_constant() and zeta > 1':
+            if nz(t) in (nz('zeta.is_constant() and zeta > 1'), nz('zeta.is_constant() and zeta.is_real and zeta > 1')):
                 if len(s.body) == 1 and un(s.body[0]).startswith('warn(') and not s.orelse:
                     return None
                 fail(s, 'unexpected body', F)
+            if t == 'len(dcoeffs) < 3' and not s.orelse and len(s.body) == 1 and nz(un(s.body[0])) == nz('return self.ratfun(expr.expr, s, t)'):
+                # denominator of degree < 2: handed back to the general path
+                self.ds_guard_degree = True
+                return None
             if t == 'omega1 == 0' and not s.orelse and len(s.body) == 1 and nz(un(s.body[0])) == nz('return self.ratfun(expr.expr, s, t)'):
                 # critically damped: handed back to the general path (no damped_sin keyword => no recursion)
                 self.ds_guard_omega1 = True
@@ -636,7 +667,7 @@ class ILTTranslation:
     def tr_skeleton(self):
         """statements of term / make / doit / delay_factor that the hand model mirrors"""
         F = 'lcapy/inverse_laplace.py'
-        term = un(find_method(self.ilt, 'term', F))
+        term = all_stmts(find_method(self.ilt, 'term', F))
         need_term = [
             "(expr, delay) = self.delay_factor(expr, s)",
             "(cresult, uresult) = self.term1(expr, s, t, **kwargs)",
@@ -646,19 +677,19 @@ class ILTTranslation:
             "if not delay.is_negative:",
             "cresult += uresult * sym.Heaviside(t - delay)",
             "self.error('Causality violated with time advance %s.' % delay)",
-            "if kwargs.get('causal', False):\n            cresult += uresult * sym.Heaviside(t)\n            uresult = Zero",
+            "if kwargs.get('causal', False):\n    cresult += uresult * sym.Heaviside(t)\n    uresult = Zero",
             "return (cresult, uresult)",
         ]
         for tx in need_term:
-            if nz(tx) not in nz(term):
+            if nz(tx) not in term:
                 raise Untranslatable('%s: term(): expected statement not found: %s' % (F, tx.split('\n')[0]))
-        df = un(find_method(self.ilt, 'delay_factor', F))
+        df = all_stmts(find_method(self.ilt, 'delay_factor', F))
         for tx in ["delay = Zero", "if b == sym.E and e.is_polynomial(var):", "delay -= c[0]", "return (rest, delay)"]:
-            if nz(tx) not in nz(df):
+            if nz(tx) not in df:
                 raise Untranslatable('%s: delay_factor(): expected statement not found: %s' % (F, tx))
-        t1 = un(find_method(self.ilt, 'term1', F))
+        t1 = all_stmts(find_method(self.ilt, 'term1', F))
         for tx in ["(const, expr) = factor_const(expr, s)", "(cresult, uresult) = self.ratfun(expr, s, t, **kwargs)", "return (const * cresult, const * uresult)"]:
-            if nz(tx) not in nz(t1):
+            if nz(tx) not in t1:
                 raise Untranslatable('%s: term1(): expected statement not found: %s' % (F, tx))
         G = 'lcapy/transformer.py'
         ucls = find_class(self.trees[G], 'UnilateralInverseTransformer', G)
@@ -668,13 +699,13 @@ class ILTTranslation:
                 "return result"]
         if [nz(un(s)) for s in mk] != [nz(x) for x in want]:
             raise Untranslatable('%s: UnilateralInverseTransformer.make differs from the modelled shape' % G)
-        dt = un(find_method(ucls, 'doit', G))
+        dt = all_stmts(find_method(ucls, 'doit', G))
         for tx in ["(const, expr) = factor_const(expr, var)", "key = self.key(expr, var, conjvar, **kwargs)",
-                   "if key in self.cache:\n        return self.make(conjvar, const, *self.cache[key], **kwargs)",
+                   "if key in self.cache:\n    return self.make(conjvar, const, *self.cache[key], **kwargs)",
                    "terms = expr.as_ordered_terms()", "(cterm, uterm) = self.term(sterm, var, conjvar, **kwargs)",
                    "cresult += cterm", "uresult += uterm", "self.cache[key] = (cresult, uresult)",
                    "return self.make(conjvar, const, *self.cache[key], **kwargs)"]:
-            if nz(tx) not in nz(dt):
+            if nz(tx) not in dt:
                 raise Untranslatable('%s: doit(): expected statement not found: %s' % (G, tx.split('\n')[0]))
         H = 'lcapy/assumptions.py'
         st = un(find_method(find_class(self.trees[H], 'Assumptions', H), 'set', H))
